@@ -215,6 +215,14 @@ def rule_construction(rep, pdb):
                         key_is_col = b_.get("k") == "Local" and b_.get("v") == q_["ps"][1]["v"]
                 oks = key_is_col and _pos(sorts[0]) < _pos(lp)
             rep.add("lengths/from_triplets-sort", "triplets are sorted by column (a *_by_key sort on component .1; stability is not needed for duplicate-free input) before they are drained", oks, sorts[0] if sorts else fn["body"], "")
+        # the triplets are reordered, never filtered: every entry handed in is stored
+        TR = P(2)
+        calls_on = [n for n in walk(fn["body"]) if n.get("k") == "MethodCall" and ctx.term(n["recv"]) == TR and not n.get("x")]
+        okm = ("sort", "sort_by", "sort_by_key", "sort_unstable", "sort_unstable_by", "sort_unstable_by_key", "sort_by_cached_key", "len", "is_empty", "iter", "drain", "into_iter", "iter_mut", "clone", "as_slice", "as_mut_slice")
+        badc = [n for n in calls_on if n.get("name") not in okm]
+        rep.add("lengths/from_triplets/keeps-all", "from_triplets only reorders its input (sort) and then stores every triplet: nothing filters, deduplicates or truncates the list "
+                "(a de-duplication keyed on a wrong stride drops distinct entries of tall matrices)", not badc, badc[0] if badc else fn["body"],
+                "calls on the triplet list: %s" % sorted({n.get("name") for n in calls_on}))
         rep.add("lengths/from_triplets", rule, ok, fn["body"], det, where=loc(fn["body"]))
     # ---- col_start_from_index
     fn = pdb.fn("%s::col_start_from_index" % S)
@@ -360,6 +368,23 @@ def rule_scale_values_only(rep, pdb):
             ok = r is not None and e.kind == "upd" and e.op == "*=" and e.target == VAL and e.index == r[0] and e.value == P(1) and r[1:5] == (num(0), NNZ, False, False) and \
                 all(path == ("val",) and mode == "elem" for (path, mode), _ in muts)
         rep.add("scale", rule, ok, fn["body"], "writes through self: %s" % [k for k, _ in muts], where=loc(fn["body"]))
+        rule_scale_shortcut(rep, pdb, fn, ctx)
+
+
+def rule_scale_shortcut(rep, pdb, fn=None, ctx=None):
+    fn = fn or pdb.fn("%s::scale" % S)
+    if fn is None:
+        return
+    ctx = ctx or Ctx.for_fn(pdb, fn)
+    # a shortcut may skip the loop only when scaling changes nothing: the factor is the multiplicative identity
+    from .guards import facts as _facts
+    from .pdb import ancestors as _anc
+    for r_ in [n for n in walk(fn["body"]) if n.get("k") == "Ret" and not any(a.get("k") == "Closure" for a in _anc(n))]:
+        fs = _facts(ctx, r_)
+        one = any(f[0] == "cmp" and f[1] == "==" and P(1) in (f[2], f[3]) and any(t[0] == "call" and str(t[1]).endswith("One::one") for t in (f[2], f[3])) for f in fs)
+        empty = any(f[0] == "cmp" and f[1] == "==" and {f[2], f[3]} == {NNZ, num(0)} for f in fs)
+        rep.add("scale/shortcut", "an early return of scale skips the multiplication only when it changes nothing: the factor equals T::one() (or nothing is stored)", one or empty, r_,
+                "known at the return: %s" % [show(("op", f[1], f[2], f[3]), ctx) for f in fs if f[0] == "cmp"][:4])
 
 
 def check_transpose(rep, pdb, walks, key):
